@@ -645,6 +645,8 @@ def check(run):
     check_surgery(run, ef, pa, P2, pa.params[0], c14.hashed_path, c14.rhs_kind, lambda k: pfps.get(k), set(pfps), c14.INVARIANCE, {}, None, "C04",
                   r2="R6", r2b="R6", r6="R6", r8="R6", transport_ok=c14.TRANSPORT)
     run.assume("M.p numerically, composition / inverse laws, volume / area / inertia scaling and the 1e-8 / 1e-6 shortcut thresholds are not decided")
+    from ..rigidrule import rigid_rule
+    rigid_rule(run, ix, "R11", "C04")
     return {
         "explanation": "Effect analysis (RANDOM effect, write sets) over every geometry kind's transform entry points; an algebraic proof that "
         "flips_winding's sample-based test equals sign(det M); structural funnel checks; the C01/C14 preservation obligations applied to the "
